@@ -7,7 +7,7 @@
 //@ inject src/value/encode.rs
 //@ default-clause C07.bin.nopanic
 //@ harness k4_bytes_bin     tier=quick kind=complete fn=src/value/encode.rs::<[u8]>::to_mysql_bin
-//@ harness k4_forwarders    tier=quick kind=complete fn=src/value/encode.rs::<Vec<u8>|&T>::to_mysql_bin/to_mysql_text
+//@ harness k4_forwarders    tier=quick kind=bounded bound=byte-strings-of-at-most-3-bytes fn=src/value/encode.rs::<Vec<u8>|&T>::to_mysql_bin/to_mysql_text
 //@ harness k4_forwarders_str tier=quick kind=bounded bound=ascii-strings-of-at-most-3-bytes fn=src/value/encode.rs::<str|String>::to_mysql_bin/to_mysql_text
 //@ harness k4_bytes_text    tier=quick kind=complete fn=src/value/encode.rs::<[u8]>::to_mysql_text
 //@ harness k4_option        tier=quick kind=complete fn=src/value/encode.rs::<Option<T>>::{to_mysql_bin,is_null}
@@ -95,37 +95,39 @@ pub fn k4_bytes_bin() {
     }
 }
 
-#[cfg(kani)]
-#[kani::proof]
-#[kani::stub(std::fmt::format, fmt_stub)]
-#[kani::unwind(10)]
+#[cfg_attr(kani, kani::proof)]
+#[cfg_attr(kani, kani::stub(std::fmt::format, fmt_stub))]
+#[cfg_attr(kani, kani::unwind(10))]
 pub fn k4_forwarders() {
-    // Vec<u8>, &Vec<u8>, &&[u8]: every length (lazy payload)
+    // Vec<u8>, &Vec<u8>, &&[u8] forward to the [u8] impl (whose all-lengths contract is k4_bytes_bin /
+    // k4_bytes_text); byte strings of at most 3 bytes here
+    let raw: [u8; 3] = vk::any();
     let n: usize = vk::any();
-    vk::assume(n <= (1usize << 40));
-    let data = lazy_bytes(n);
+    vk::assume(n <= 3);
+    let data: Vec<u8> = raw[..n].to_vec();
     let c = col(ColumnType::MYSQL_TYPE_VAR_STRING, false);
-    let k1: usize = vk::any();
     let which: u8 = vk::any();
-    let mut s = RecSink::new(data.as_ptr());
     let text: bool = vk::any();
+    let mut b = Buf::<8>::new();
     let r = match which {
         1 => {
             let r = &data;
-            if text { r.to_mysql_text(&mut s) } else { r.to_mysql_bin(&mut s, &c) }
+            if text { r.to_mysql_text(&mut b) } else { r.to_mysql_bin(&mut b, &c) }
         }
         2 => {
             let r: &&[u8] = &&data[..];
-            if text { r.to_mysql_text(&mut s) } else { r.to_mysql_bin(&mut s, &c) }
+            if text { r.to_mysql_text(&mut b) } else { r.to_mysql_bin(&mut b, &c) }
         }
         _ => {
-            if text { data.to_mysql_text(&mut s) } else { data.to_mysql_bin(&mut s, &c) }
+            if text { data.to_mysql_text(&mut b) } else { data.to_mysql_bin(&mut b, &c) }
         }
     };
     vk_cover!(which == 1 && text, "cover: &Vec<u8> text");
-    vk_cover!(which == 3 && !text, "cover: Vec<u8> bin");
-    vk_assert!(r.is_ok(), "[C07.bin.bytes] forwarding impl failed");
-    vk_assert!(is_lenenc_str(&s, n, k1), "[C07.bin.bytes] forwarding impl did not write lenenc_str(bytes)");
+    vk_cover!(which == 3 && !text && n == 3, "cover: Vec<u8> bin");
+    vk_assert!(r.is_ok() && b.n == 1 + n && b.b[0] as usize == n, "[C07.bin.bytes] forwarding impl did not write lenenc_str(bytes)");
+    let k: usize = vk::any();
+    vk::assume(k < n);
+    vk_assert!(b.b[1 + k] == raw[k], "[C07.bin.bytes] forwarding impl payload differs");
 }
 
 #[cfg_attr(kani, kani::proof)]
